@@ -15,6 +15,24 @@ theorem zipWith_congr_mem {α β γ} {f g : α → β → γ} (xs : List α) (ys
       simp only [List.zipWith_cons_cons]
       rw [h x (by simp) y (by simp), ih ys (fun a ha c hc => h a (by simp [ha]) c (by simp [hc]))]
 
+theorem zipWith_fst {α β γ} (f : α → γ) (xs : List α) (ys : List β) (h : xs.length = ys.length) :
+    List.zipWith (fun x _ => f x) xs ys = xs.map f := by
+  induction xs generalizing ys with
+  | nil => simp
+  | cons x xs ih =>
+    cases ys with
+    | nil => simp at h
+    | cons y ys => simp only [List.zipWith_cons_cons, List.map_cons]; rw [ih ys (by simpa using h)]
+
+theorem zipWith_snd {α β γ} (f : β → γ) (xs : List α) (ys : List β) (h : xs.length = ys.length) :
+    List.zipWith (fun _ y => f y) xs ys = ys.map f := by
+  induction xs generalizing ys with
+  | nil => cases ys <;> simp_all
+  | cons x xs ih =>
+    cases ys with
+    | nil => simp at h
+    | cons y ys => simp only [List.zipWith_cons_cons, List.map_cons]; rw [ih ys (by simpa using h)]
+
 /-- post-condition for a list of result wires with values `vs` -/
 structure ListPost (b : Builder) (r : List Nat × Builder) (vs : List Bool → List Bool) : Prop where
   wf : WF r.2
@@ -63,6 +81,477 @@ theorem muxWires_post {b : Builder} (hb : WF b) {s : Nat} (hs : s < b.counter) :
         intro a ha c hc
         rw [e1.sem_eq inp hi s hs, e1.sem_eq inp hi a (hx a (by simp [ha])),
           e1.sem_eq inp hi c (hy c (by simp [hc]))]
+
+/-! ### the abstract panic state -/
+
+/-- decoded panic state on input `inp`: `none` = no panic, `some info` = panicked with these 160
+information bits (reason and location of the first failing site) -/
+def absOf (b : Builder) (inp : List Bool) (p : PanicSt) : Option (List Bool) :=
+  if b.sem inp p.flag then some ((p.wires.drop 1).map (b.sem inp)) else none
+
+/-- "first failure wins" -/
+def raiseIf (c : Bool) (info : List Bool) (s : Option (List Bool)) : Option (List Bool) :=
+  match s with
+  | some i => some i
+  | none => if c then some info else none
+
+/-- invariant of a panic record: its wires exist, it has a flag wire, and every cached condition
+implies the flag on every input -/
+structure PInv (b : Builder) (p : PanicSt) : Prop where
+  lt : ∀ w, w ∈ p.wires → w < b.counter
+  len : p.wires.length = 161
+  cacheLt : ∀ c, c ∈ p.cache → c < b.counter
+  cacheImp : ∀ c, c ∈ p.cache → ∀ inp, inp.length + 2 = b.shift →
+    b.sem inp c = true → b.sem inp p.flag = true
+
+theorem PInv.mono {b b' : Builder} {p : PanicSt} (h : PInv b p) (e : Ext b b') : PInv b' p := by
+  refine ⟨fun w hw => Nat.lt_of_lt_of_le (h.lt w hw) e.counter_le, h.len,
+    fun c hc => Nat.lt_of_lt_of_le (h.cacheLt c hc) e.counter_le, ?_⟩
+  intro c hc inp hi hs
+  have hi' : inp.length + 2 = b.shift := by rw [← e.shift]; exact hi
+  have hfl : p.flag < b.counter := by
+    cases hw : p.wires with
+    | nil => have := h.len; rw [hw] at this; simp at this
+    | cons w ws => simp only [PanicSt.flag, hw, List.headD_cons]; exact h.lt w (by simp [hw])
+  rw [e.sem_eq inp hi' c (h.cacheLt c hc)] at hs
+  rw [e.sem_eq inp hi' p.flag hfl]
+  exact h.cacheImp c hc inp hi' hs
+
+theorem PInv.flag_lt {b : Builder} {p : PanicSt} (h : PInv b p) : p.flag < b.counter := by
+  cases hw : p.wires with
+  | nil => have := h.len; rw [hw] at this; simp at this
+  | cons w ws => simp only [PanicSt.flag, hw, List.headD_cons]; exact h.lt w (by simp [hw])
+
+theorem absOf_ext {b b' : Builder} {p : PanicSt} (h : PInv b p) (e : Ext b b') (inp : List Bool)
+    (hi : inp.length + 2 = b.shift) : absOf b' inp p = absOf b inp p := by
+  simp only [absOf]
+  rw [e.sem_eq inp hi p.flag h.flag_lt]
+  congr 2
+  apply List.map_congr_left
+  intro w hw
+  exact e.sem_eq inp hi w (h.lt w (List.mem_of_mem_drop hw))
+
+/-- **`mux_panic` refines the conditional**: the merged record decodes to the record of the
+path selected by `s`, and the invariant is kept. -/
+theorem muxPanic_refines {b : Builder} (hb : WF b) {s : Nat} (hs : s < b.counter) {t f : PanicSt}
+    (ht : PInv b t) (hf : PInv b f) :
+    WF (muxPanic b s t f).1 ∧ Ext b (muxPanic b s t f).1 ∧ PInv (muxPanic b s t f).1 (muxPanic b s t f).2 ∧
+    ∀ inp, inp.length + 2 = b.shift →
+      absOf (muxPanic b s t f).1 inp (muxPanic b s t f).2 =
+        if b.sem inp s then absOf b inp t else absOf b inp f := by
+  have hlen : t.wires.length = f.wires.length := by rw [ht.len, hf.len]
+  have hp := muxWires_post hb hs t.wires f.wires ht.lt hf.lt
+  simp only [muxPanic]
+  generalize muxWires b s t.wires f.wires = r at *
+  obtain ⟨ws, b1⟩ := r
+  obtain ⟨wf1, e1, hlt, hsem⟩ := hp
+  simp only at wf1 e1 hlt hsem ⊢
+  -- shape of the wire lists
+  obtain ⟨tw, trest, htw⟩ : ∃ a l, t.wires = a :: l := by
+    cases h : t.wires with
+    | nil => have := ht.len; rw [h] at this; simp at this
+    | cons a l => exact ⟨a, l, rfl⟩
+  obtain ⟨fw, frest, hfw⟩ : ∃ a l, f.wires = a :: l := by
+    cases h : f.wires with
+    | nil => have := hf.len; rw [h] at this; simp at this
+    | cons a l => exact ⟨a, l, rfl⟩
+  have hws : ∀ inp, inp.length + 2 = b.shift → ws.map (b1.sem inp) =
+      (if b.sem inp s then b.sem inp tw else b.sem inp fw) ::
+        List.zipWith (fun x y => if b.sem inp s then b.sem inp x else b.sem inp y) trest frest := by
+    intro inp hi
+    rw [hsem inp hi, htw, hfw, List.zipWith_cons_cons]
+  obtain ⟨w0, wrest, hw0⟩ : ∃ a l, ws = a :: l := by
+    have h := hws (List.replicate (b.shift - 2) false) (dummy_inp hb)
+    cases hws' : ws with
+    | nil => rw [hws'] at h; simp at h
+    | cons a l => exact ⟨a, l, rfl⟩
+  subst hw0
+  have hwl : (w0 :: wrest).length = 161 := by
+    have h := congrArg List.length (hws (List.replicate (b.shift - 2) false) (dummy_inp hb))
+    have hl : trest.length = frest.length := by
+      have := hlen; rw [htw, hfw] at this; simpa using this
+    have h161 := ht.len
+    rw [htw] at h161
+    simp only [List.length_map, List.length_cons, List.length_zipWith, hl, Nat.min_self] at h h161 ⊢
+    omega
+  refine ⟨wf1, e1, ⟨hlt, hwl, ?_, ?_⟩, ?_⟩
+  · intro c hc
+    simp only [List.mem_filter] at hc
+    exact Nat.lt_of_lt_of_le (ht.cacheLt c hc.1) e1.counter_le
+  · intro c hc inp hi hcv
+    simp only [List.mem_filter, List.contains_iff_mem] at hc
+    have hi' : inp.length + 2 = b.shift := by rw [← e1.shift]; exact hi
+    have h0 := hws inp hi'
+    simp only [List.map_cons, List.cons.injEq] at h0
+    simp only [PanicSt.flag, List.headD_cons]
+    rw [h0.1]
+    rw [e1.sem_eq inp hi' c (ht.cacheLt c hc.1)] at hcv
+    have h1 := ht.cacheImp c hc.1 inp hi' hcv
+    have h2 := hf.cacheImp c hc.2 inp hi' hcv
+    simp only [PanicSt.flag, htw, hfw, List.headD_cons] at h1 h2
+    split <;> assumption
+  · intro inp hi
+    have h0 := hws inp hi
+    simp only [List.map_cons, List.cons.injEq] at h0
+    simp only [absOf, PanicSt.flag, List.headD_cons, List.drop_one, List.tail_cons, htw, hfw]
+    rw [h0.1, h0.2]
+    have hl : trest.length = frest.length := by
+      have := hlen; rw [htw, hfw] at this; simpa using this
+    cases b.sem inp s
+    · simp only [Bool.false_eq_true, if_false]
+      rw [zipWith_snd _ _ _ hl]
+    · simp only [if_true]
+      rw [zipWith_fst _ _ _ hl]
+
+/-! ### interleaving -/
+
+theorem interleave4_map {α β} (g : α → β) : ∀ (a b c d : List α),
+    (interleave4 a b c d).map g = interleave4 (a.map g) (b.map g) (c.map g) (d.map g)
+  | x :: a, y :: b, z :: c, w :: d => by simp [interleave4, interleave4_map g a b c d]
+  | [], _, _, _ => by simp [interleave4]
+  | _ :: _, [], _, _ => by simp [interleave4]
+  | _ :: _, _ :: _, [], _ => by simp [interleave4]
+  | _ :: _, _ :: _, _ :: _, [] => by simp [interleave4]
+
+theorem deinterleave4_interleave4 {α} : ∀ (a b c d : List α), a.length = b.length → a.length = c.length →
+    a.length = d.length → deinterleave4 (interleave4 a b c d) = (a, b, c, d)
+  | x :: a, y :: b, z :: c, w :: d, h1, h2, h3 => by
+    simp only [List.length_cons, Nat.add_right_cancel_iff] at h1 h2 h3
+    simp [interleave4, deinterleave4, deinterleave4_interleave4 a b c d h1 h2 h3]
+  | [], [], [], [], _, _, _ => by simp [interleave4, deinterleave4]
+  | [], _ :: _, _, _, h, _, _ => by simp at h
+  | [], [], _ :: _, _, _, h, _ => by simp at h
+  | [], [], [], _ :: _, _, _, h => by simp at h
+  | _ :: _, [], _, _, h, _, _ => by simp at h
+  | _ :: _, _ :: _, [], _, _, h, _ => by simp at h
+  | _ :: _, _ :: _, _ :: _, [], _, _, h => by simp at h
+
+theorem interleave4_length {α} : ∀ (a b c d : List α), a.length = b.length → a.length = c.length →
+    a.length = d.length → (interleave4 a b c d).length = 4 * a.length
+  | x :: a, y :: b, z :: c, w :: d, h1, h2, h3 => by
+    simp only [List.length_cons, Nat.add_right_cancel_iff] at h1 h2 h3
+    simp only [interleave4, List.length_cons, interleave4_length a b c d h1 h2 h3]; omega
+  | [], _, _, _, _, _, _ => by simp [interleave4]
+  | _ :: _, [], _, _, h, _, _ => by simp at h
+  | _ :: _, _ :: _, [], _, _, h, _ => by simp at h
+  | _ :: _, _ :: _, _ :: _, [], _, _, h => by simp at h
+
+theorem mem_interleave4 {α} {x : α} : ∀ (a b c d : List α), x ∈ interleave4 a b c d →
+    x ∈ a ∨ x ∈ b ∨ x ∈ c ∨ x ∈ d
+  | y :: a, z :: b, u :: c, w :: d, h => by
+    simp only [interleave4, List.mem_cons] at h ⊢
+    rcases h with h | h | h | h | h
+    · exact Or.inl (Or.inl h)
+    · exact Or.inr (Or.inl (Or.inl h))
+    · exact Or.inr (Or.inr (Or.inl (Or.inl h)))
+    · exact Or.inr (Or.inr (Or.inr (Or.inl h)))
+    · rcases mem_interleave4 a b c d h with h | h | h | h
+      · exact Or.inl (Or.inr h)
+      · exact Or.inr (Or.inl (Or.inr h))
+      · exact Or.inr (Or.inr (Or.inl (Or.inr h)))
+      · exact Or.inr (Or.inr (Or.inr (Or.inr h)))
+  | [], _, _, _, h => by simp [interleave4] at h
+  | _ :: _, [], _, _, h => by simp [interleave4] at h
+  | _ :: _, _ :: _, [], _, h => by simp [interleave4] at h
+  | _ :: _, _ :: _, _ :: _, [], h => by simp [interleave4] at h
+
+theorem mem_interleave4_of_mem {α} {x : α} : ∀ (a b c d : List α), a.length = b.length →
+    a.length = c.length → a.length = d.length → (x ∈ a ∨ x ∈ b ∨ x ∈ c ∨ x ∈ d) → x ∈ interleave4 a b c d
+  | y :: a, z :: b, u :: c, w :: d, h1, h2, h3, h => by
+    simp only [List.length_cons, Nat.add_right_cancel_iff] at h1 h2 h3
+    simp only [interleave4, List.mem_cons] at h ⊢
+    have ih := mem_interleave4_of_mem (x := x) a b c d h1 h2 h3
+    rcases h with (h | h) | (h | h) | (h | h) | (h | h)
+    · exact Or.inl h
+    · exact Or.inr (Or.inr (Or.inr (Or.inr (ih (Or.inl h)))))
+    · exact Or.inr (Or.inl h)
+    · exact Or.inr (Or.inr (Or.inr (Or.inr (ih (Or.inr (Or.inl h))))))
+    · exact Or.inr (Or.inr (Or.inl h))
+    · exact Or.inr (Or.inr (Or.inr (Or.inr (ih (Or.inr (Or.inr (Or.inl h)))))))
+    · exact Or.inr (Or.inr (Or.inr (Or.inl h)))
+    · exact Or.inr (Or.inr (Or.inr (Or.inr (ih (Or.inr (Or.inr (Or.inr h)))))))
+  | [], [], [], [], _, _, _, h => by simp at h
+  | [], _ :: _, _, _, h, _, _, _ => by simp at h
+  | [], [], _ :: _, _, _, h, _, _ => by simp at h
+  | [], [], [], _ :: _, _, _, h, _ => by simp at h
+  | _ :: _, [], _, _, h, _, _, _ => by simp at h
+  | _ :: _, _ :: _, [], _, _, h, _, _ => by simp at h
+  | _ :: _, _ :: _, _ :: _, [], _, _, h, _ => by simp at h
+
+/-- a list of `4n` elements is the interleaving of its de-interleaving -/
+theorem deinterleave4_spec {α} : ∀ (n : Nat) (l : List α), l.length = 4 * n →
+    (deinterleave4 l).1.length = n ∧ (deinterleave4 l).2.1.length = n ∧ (deinterleave4 l).2.2.1.length = n ∧
+    (deinterleave4 l).2.2.2.length = n ∧
+    l = interleave4 (deinterleave4 l).1 (deinterleave4 l).2.1 (deinterleave4 l).2.2.1 (deinterleave4 l).2.2.2
+  | 0, l, h => by
+    have : l = [] := by cases l <;> simp_all
+    subst this; simp [deinterleave4, interleave4]
+  | n + 1, a :: b :: c :: d :: rest, h => by
+    have hr : rest.length = 4 * n := by simp at h; omega
+    obtain ⟨h1, h2, h3, h4, h5⟩ := deinterleave4_spec n rest hr
+    simp only [deinterleave4, List.length_cons, h1, h2, h3, h4, interleave4, true_and]
+    rw [← h5]
+  | n + 1, [], h => by simp at h
+  | n + 1, [_], h => by simp at h; omega
+  | n + 1, [_, _], h => by simp at h; omega
+  | n + 1, [_, _, _], h => by simp at h; omega
+
+theorem usizeWires_length (n : Nat) : (usizeWires n).length = 32 := by simp [usizeWires]
+
+theorem usizeWires_le_one (n : Nat) : ∀ w, w ∈ usizeWires n → w ≤ 1 := by
+  intro w hw
+  simp only [usizeWires, List.mem_map, List.mem_range] at hw
+  obtain ⟨i, _, rfl⟩ := hw
+  have := Nat.mod_lt (n / 2 ^ (31 - i)) (by decide : 0 < 2)
+  omega
+
+theorem interleave4_inj {α} {a b c d a' b' c' d' : List α} (n : Nat)
+    (ha : a.length = n) (hb : b.length = n) (hc : c.length = n) (hd : d.length = n)
+    (ha' : a'.length = n) (hb' : b'.length = n) (hc' : c'.length = n) (hd' : d'.length = n)
+    (h : interleave4 a b c d = interleave4 a' b' c' d') : a = a' ∧ b = b' ∧ c = c' ∧ d = d' := by
+  have := congrArg deinterleave4 h
+  rw [deinterleave4_interleave4 a b c d (by omega) (by omega) (by omega),
+    deinterleave4_interleave4 a' b' c' d' (by omega) (by omega) (by omega)] at this
+  simpa using this
+
+theorem split160 {α} (l : List α) (h : l.length = 160) :
+    l = l.take 32 ++ ((l.drop 32).take 32 ++ ((l.drop 64).take 32 ++ ((l.drop 96).take 32 ++ (l.drop 128).take 32))) := by
+  have e1 := (List.take_append_drop 32 l).symm
+  have e2 := (List.take_append_drop 32 (l.drop 32)).symm
+  have e3 := (List.take_append_drop 32 (l.drop 64)).symm
+  have e4 := (List.take_append_drop 32 (l.drop 96)).symm
+  have e5 : (l.drop 128).take 32 = l.drop 128 := List.take_of_length_le (by simp; omega)
+  simp only [List.drop_drop] at e2 e3 e4
+  rw [e5]
+  conv => lhs; rw [e1, e2, e3, e4]
+
+/-- the 160 information bits a site writes (constant wires) -/
+def siteInfo (reason l0 c0 l1 c1 : Nat) : List Nat :=
+  usizeWires reason ++ (usizeWires l0 ++ (usizeWires c0 ++ (usizeWires l1 ++ usizeWires c1)))
+
+theorem sem_const_ext {b b' : Builder} (hb : WF b) (e : Ext b b') (inp : List Bool)
+    (hi : inp.length + 2 = b.shift) (ws : List Nat) (h : ∀ w, w ∈ ws → w ≤ 1) :
+    ws.map (b'.sem inp) = ws.map (b.sem inp) := by
+  apply List.map_congr_left
+  intro w hw
+  exact e.sem_eq inp hi w (by have := h w hw; have := c2 hb; omega)
+
+/-- **`push_panic_if` refines `raiseIf`** ("first failure wins"), and the invariant is kept. -/
+theorem pushPanicIf_refines {b : Builder} (hb : WF b) {p : PanicSt} (hp : PInv b p) {cond : Nat}
+    (hc : cond < b.counter) (reason l0 c0 l1 c1 : Nat) :
+    WF (pushPanicIf b p cond reason l0 c0 l1 c1).1 ∧ Ext b (pushPanicIf b p cond reason l0 c0 l1 c1).1 ∧
+    PInv (pushPanicIf b p cond reason l0 c0 l1 c1).1 (pushPanicIf b p cond reason l0 c0 l1 c1).2 ∧
+    ∀ inp, inp.length + 2 = b.shift →
+      absOf (pushPanicIf b p cond reason l0 c0 l1 c1).1 inp (pushPanicIf b p cond reason l0 c0 l1 c1).2 =
+        raiseIf (b.sem inp cond) ((siteInfo reason l0 c0 l1 c1).map (b.sem inp)) (absOf b inp p) := by
+  simp only [pushPanicIf]
+  split
+  · -- the condition is already part of the record
+    rename_i hhit
+    have hmem : cond ∈ p.cache := by simpa using hhit
+    refine ⟨hb, Ext.refl b, hp, fun inp hi => ?_⟩
+    simp only [absOf, raiseIf]
+    cases hfl : b.sem inp p.flag
+    · have : b.sem inp cond = false := by
+        cases hcv : b.sem inp cond
+        · rfl
+        · have := hp.cacheImp cond hmem inp hi hcv; rw [hfl] at this; cases this
+      simp [this]
+    · simp
+  · -- a new condition
+    obtain ⟨fl, info, hw⟩ : ∃ a l, p.wires = a :: l := by
+      cases h : p.wires with
+      | nil => have := hp.len; rw [h] at this; simp at this
+      | cons a l => exact ⟨a, l, rfl⟩
+    have hinfo : info.length = 160 := by have := hp.len; rw [hw] at this; simpa using this
+    have hflag : p.flag = fl := by simp [PanicSt.flag, hw]
+    have hR : p.reason = info.take 32 := by simp [PanicSt.reason, hw]
+    have hSL : p.startLine = (info.drop 32).take 32 := by simp [PanicSt.startLine, hw]
+    have hSC : p.startCol = (info.drop 64).take 32 := by simp [PanicSt.startCol, hw]
+    have hEL : p.endLine = (info.drop 96).take 32 := by simp [PanicSt.endLine, hw]
+    have hEC : p.endCol = (info.drop 128).take 32 := by simp [PanicSt.endCol, hw]
+    have hfl : fl < b.counter := hp.lt fl (by simp [hw])
+    have hinfolt : ∀ w, w ∈ info → w < b.counter := fun w hm => hp.lt w (by simp [hw, hm])
+    rw [hflag, hR, hSL, hSC, hEL, hEC]
+    generalize hRd : info.take 32 = R
+    generalize hSLd : (info.drop 32).take 32 = SL
+    generalize hSCd : (info.drop 64).take 32 = SC
+    generalize hELd : (info.drop 96).take 32 = EL
+    generalize hECd : (info.drop 128).take 32 = EC
+    have hsplit : info = R ++ (SL ++ (SC ++ (EL ++ EC))) := by
+      have := split160 info hinfo
+      rw [hRd, hSLd, hSCd, hELd, hECd] at this; exact this
+    have lR : R.length = 32 := by rw [← hRd]; simp; omega
+    have lSL : SL.length = 32 := by rw [← hSLd]; simp; omega
+    have lSC : SC.length = 32 := by rw [← hSCd]; simp; omega
+    have lEL : EL.length = 32 := by rw [← hELd]; simp; omega
+    have lEC : EC.length = 32 := by rw [← hECd]; simp; omega
+    have mR : ∀ w, w ∈ R → w < b.counter := fun w h => hinfolt w (by rw [hsplit]; simp [h])
+    have mSL : ∀ w, w ∈ SL → w < b.counter := fun w h => hinfolt w (by rw [hsplit]; simp [h])
+    have mSC : ∀ w, w ∈ SC → w < b.counter := fun w h => hinfolt w (by rw [hsplit]; simp [h])
+    have mEL : ∀ w, w ∈ EL → w < b.counter := fun w h => hinfolt w (by rw [hsplit]; simp [h])
+    have mEC : ∀ w, w ∈ EC → w < b.counter := fun w h => hinfolt w (by rw [hsplit]; simp [h])
+    -- stage 1: the flag
+    have h1 := or_post hb hfl hc
+    generalize b.or fl cond = r1 at *
+    obtain ⟨flag', b1⟩ := r1
+    obtain ⟨wf1, e1, hfl', s1⟩ := h1
+    simp only at wf1 e1 hfl' s1 ⊢
+    have c21 := c2 hb
+    -- stage 2: the location
+    have hx2 : ∀ w, w ∈ interleave4 SL SC EL EC → w < b1.counter := by
+      intro w hm
+      rcases mem_interleave4 _ _ _ _ hm with h | h | h | h
+      · exact Nat.lt_of_lt_of_le (mSL w h) e1.counter_le
+      · exact Nat.lt_of_lt_of_le (mSC w h) e1.counter_le
+      · exact Nat.lt_of_lt_of_le (mEL w h) e1.counter_le
+      · exact Nat.lt_of_lt_of_le (mEC w h) e1.counter_le
+    have hy2 : ∀ w, w ∈ interleave4 (usizeWires l0) (usizeWires c0) (usizeWires l1) (usizeWires c1) →
+        w < b1.counter := by
+      intro w hm
+      have hle : w ≤ 1 := by
+        rcases mem_interleave4 _ _ _ _ hm with h | h | h | h <;> exact usizeWires_le_one _ w h
+      have := e1.counter_le; omega
+    have h2 := muxWires_post wf1 (Nat.lt_of_lt_of_le hfl e1.counter_le) _ _ hx2 hy2
+    generalize muxWires b1 fl (interleave4 SL SC EL EC)
+      (interleave4 (usizeWires l0) (usizeWires c0) (usizeWires l1) (usizeWires c1)) = r2 at *
+    obtain ⟨loc, b2⟩ := r2
+    obtain ⟨wf2, e2, hloclt, s2⟩ := h2
+    simp only at wf2 e2 hloclt s2 ⊢
+    have e12 := e1.trans e2
+    -- stage 3: the reason
+    have hx3 : ∀ w, w ∈ R → w < b2.counter := fun w h => Nat.lt_of_lt_of_le (mR w h) e12.counter_le
+    have hy3 : ∀ w, w ∈ usizeWires reason → w < b2.counter := by
+      intro w hm; have := usizeWires_le_one _ w hm; have := e12.counter_le; omega
+    have h3 := muxWires_post wf2 (Nat.lt_of_lt_of_le hfl e12.counter_le) R (usizeWires reason) hx3 hy3
+    generalize muxWires b2 fl R (usizeWires reason) = r3 at *
+    obtain ⟨rs, b3⟩ := r3
+    obtain ⟨wf3, e3, hrslt, s3⟩ := h3
+    simp only at wf3 e3 hrslt s3 ⊢
+    have e123 := e12.trans e3
+    have e23 := e2.trans e3
+    -- shape of `loc`
+    have hloclen : loc.length = 4 * 32 := by
+      have h := congrArg List.length (s2 (List.replicate (b.shift - 2) false)
+        (by rw [e1.shift]; exact dummy_inp hb))
+      simp only [List.length_map, List.length_zipWith] at h
+      rw [interleave4_length _ _ _ _ (by omega) (by omega) (by omega),
+        interleave4_length _ _ _ _ (by simp [usizeWires_length]) (by simp [usizeWires_length])
+          (by simp [usizeWires_length]), usizeWires_length, lSL] at h
+      simpa using h
+    obtain ⟨dl1, dl2, dl3, dl4, hlocI⟩ := deinterleave4_spec 32 loc hloclen
+    generalize hD : deinterleave4 loc = D at *
+    obtain ⟨sl', sc', el', ec'⟩ := D
+    simp only at dl1 dl2 dl3 dl4 hlocI ⊢
+    have hrslen : rs.length = 32 := by
+      have h := congrArg List.length (s3 (List.replicate (b.shift - 2) false)
+        (by rw [e12.shift]; exact dummy_inp hb))
+      simpa [List.length_zipWith, lR, usizeWires_length] using h
+    have hmemloc : ∀ w, (w ∈ sl' ∨ w ∈ sc' ∨ w ∈ el' ∨ w ∈ ec') → w ∈ loc := by
+      intro w hm
+      rw [hlocI]
+      exact mem_interleave4_of_mem _ _ _ _ (by omega) (by omega) (by omega) hm
+    have hloc3 : ∀ w, w ∈ loc → w < b3.counter := fun w h => Nat.lt_of_lt_of_le (hloclt w h) e3.counter_le
+    -- semantic facts on an input
+    have key : ∀ inp, inp.length + 2 = b.shift →
+        b3.sem inp flag' = (b.sem inp fl || b.sem inp cond) ∧
+        (rs ++ (sl' ++ (sc' ++ (el' ++ ec')))).map (b3.sem inp) =
+          if b.sem inp fl then info.map (b.sem inp) else (siteInfo reason l0 c0 l1 c1).map (b.sem inp) := by
+      intro inp hi
+      have hi1 : inp.length + 2 = b1.shift := by rw [e1.shift]; exact hi
+      have hi2 : inp.length + 2 = b2.shift := by rw [e2.shift]; exact hi1
+      have hflv1 : b1.sem inp fl = b.sem inp fl := e1.sem_eq inp hi fl hfl
+      have hflv2 : b2.sem inp fl = b.sem inp fl := e12.sem_eq inp hi fl hfl
+      refine ⟨by rw [e23.sem_eq inp hi1 flag' hfl', s1 inp hi], ?_⟩
+      -- reason
+      have hrs : rs.map (b3.sem inp) = if b.sem inp fl then R.map (b.sem inp) else (usizeWires reason).map (b.sem inp) := by
+        rw [s3 inp hi2, hflv2]
+        cases b.sem inp fl
+        · simp only [Bool.false_eq_true, if_false]
+          rw [zipWith_snd _ _ _ (by rw [lR, usizeWires_length])]
+          exact sem_const_ext hb e12 inp hi _ (usizeWires_le_one _)
+        · simp only [if_true]
+          rw [zipWith_fst _ _ _ (by rw [lR, usizeWires_length])]
+          apply List.map_congr_left
+          intro w hm; exact e12.sem_eq inp hi w (mR w hm)
+      -- location
+      have hl2 : loc.map (b3.sem inp) = loc.map (b2.sem inp) := by
+        apply List.map_congr_left
+        intro w hm; exact e3.sem_eq inp hi2 w (hloclt w hm)
+      have hilen : (interleave4 SL SC EL EC).length =
+          (interleave4 (usizeWires l0) (usizeWires c0) (usizeWires l1) (usizeWires c1)).length := by
+        rw [interleave4_length _ _ _ _ (by omega) (by omega) (by omega),
+          interleave4_length _ _ _ _ (by simp [usizeWires_length]) (by simp [usizeWires_length])
+            (by simp [usizeWires_length]), usizeWires_length, lSL]
+      have hlocv : interleave4 (sl'.map (b3.sem inp)) (sc'.map (b3.sem inp)) (el'.map (b3.sem inp))
+          (ec'.map (b3.sem inp)) =
+          if b.sem inp fl then interleave4 (SL.map (b.sem inp)) (SC.map (b.sem inp)) (EL.map (b.sem inp))
+              (EC.map (b.sem inp))
+          else interleave4 ((usizeWires l0).map (b.sem inp)) ((usizeWires c0).map (b.sem inp))
+              ((usizeWires l1).map (b.sem inp)) ((usizeWires c1).map (b.sem inp)) := by
+        rw [← interleave4_map, ← hlocI, hl2, s2 inp hi1, hflv1]
+        cases b.sem inp fl
+        · simp only [Bool.false_eq_true, if_false]
+          rw [zipWith_snd _ _ _ hilen, ← interleave4_map]
+          apply List.map_congr_left
+          intro w hm
+          have hle : w ≤ 1 := by
+            rcases mem_interleave4 _ _ _ _ hm with h | h | h | h <;> exact usizeWires_le_one _ w h
+          exact e1.sem_eq inp hi w (by omega)
+        · simp only [if_true]
+          rw [zipWith_fst _ _ _ hilen, ← interleave4_map]
+          apply List.map_congr_left
+          intro w hm
+          rcases mem_interleave4 _ _ _ _ hm with h | h | h | h
+          · exact e1.sem_eq inp hi w (mSL w h)
+          · exact e1.sem_eq inp hi w (mSC w h)
+          · exact e1.sem_eq inp hi w (mEL w h)
+          · exact e1.sem_eq inp hi w (mEC w h)
+      simp only [List.map_append, hrs]
+      cases hfv : b.sem inp fl
+      · simp only [hfv, Bool.false_eq_true, if_false] at hlocv ⊢
+        obtain ⟨q1, q2, q3, q4⟩ := interleave4_inj 32 (by simp [dl1]) (by simp [dl2]) (by simp [dl3])
+          (by simp [dl4]) (by simp [usizeWires_length]) (by simp [usizeWires_length])
+          (by simp [usizeWires_length]) (by simp [usizeWires_length]) hlocv
+        rw [q1, q2, q3, q4]
+        simp [siteInfo]
+      · simp only [hfv, if_true] at hlocv ⊢
+        obtain ⟨q1, q2, q3, q4⟩ := interleave4_inj 32 (by simp [dl1]) (by simp [dl2]) (by simp [dl3])
+          (by simp [dl4]) (by simp [lSL]) (by simp [lSC]) (by simp [lEL]) (by simp [lEC]) hlocv
+        rw [q1, q2, q3, q4, hsplit]
+        simp
+    refine ⟨wf3, e123, ⟨?_, ?_, ?_, ?_⟩, ?_⟩
+    · intro w hm
+      simp only [List.mem_cons, List.mem_append] at hm
+      rcases hm with rfl | ((((hm | hm) | hm) | hm) | hm)
+      · exact Nat.lt_of_lt_of_le hfl' e23.counter_le
+      · exact hrslt w hm
+      · exact hloc3 w (hmemloc w (Or.inl hm))
+      · exact hloc3 w (hmemloc w (Or.inr (Or.inl hm)))
+      · exact hloc3 w (hmemloc w (Or.inr (Or.inr (Or.inl hm))))
+      · exact hloc3 w (hmemloc w (Or.inr (Or.inr (Or.inr hm))))
+    · simp [hrslen, dl1, dl2, dl3, dl4]
+    · intro c hm
+      simp only [List.mem_cons] at hm
+      rcases hm with rfl | hm
+      · exact Nat.lt_of_lt_of_le hc e123.counter_le
+      · exact Nat.lt_of_lt_of_le (hp.cacheLt c hm) e123.counter_le
+    · intro c hm inp hi hcv
+      have hi0 : inp.length + 2 = b.shift := by rw [← e123.shift]; exact hi
+      simp only [PanicSt.flag, List.headD_cons]
+      rw [(key inp hi0).1]
+      simp only [List.mem_cons] at hm
+      rcases hm with rfl | hm
+      · rw [e123.sem_eq inp hi0 c hc] at hcv; simp [hcv]
+      · rw [e123.sem_eq inp hi0 c (hp.cacheLt c hm)] at hcv
+        have := hp.cacheImp c hm inp hi0 hcv
+        rw [hflag] at this
+        simp [this]
+    · intro inp hi
+      obtain ⟨k1, k2⟩ := key inp hi
+      simp only [absOf, PanicSt.flag, List.headD_cons, List.drop_one, List.tail_cons, hw, List.append_assoc]
+      rw [k1, k2]
+      cases b.sem inp fl <;> cases b.sem inp cond <;> simp [raiseIf]
 
 end Builder
 end GV
